@@ -32,13 +32,29 @@ PROVED here:
       * `St.handleRegisterAssign_sound`: the register part of the `Def::Assign` transfer is a sound edge
         transfer in the sense of (i);
       * `DData.contains_iff`, `DData.mem_toAData`: executable γρ = declarative γρ = the γ of the validation.
+ (v)  "PI-lite" memory and conditions (files `Stack/StackProps/Cond/CondProps.lean`): an exact model of the memory part
+      of `State` for 64-bit targets and an empty runtime memory image (`AbstractObject::set_value/merge_value/get_value`,
+      `AbstractObjectList::set_value/get_value`, `store_value`, `load_value_from_address`, `handle_store`, `handle_load`,
+      `DataDomain::merge`), of `DataDomain::intersect` and of ALL arms of `specialize_by_expression_result`,
+      `specialize_conditional`, `check_def_for_null_dereferences` and `update_def`, with
+      * `handleStore_sound`: a store through a pointer into the unique stack object (strong update for `stack + constant`,
+        interval marking for `stack + interval`, marking of all cells for `stack + unknown`) keeps the concrete memory in
+        γρ of the stack object (a cell = the bytes at `ρ(stack) + offset` read in the byte order of the state);
+      * `handleLoad_sound`: the value loaded from an exact stack slot is in γρ of the result; targets without object,
+        non-constant offsets and the top flag of the address give the top flag (loads from unknown places are `Top`);
+      * `updateDef_sound`: the `Assign`/`Store`/`Load` arms of `update_def` are sound edge transfers on `DefFrag`
+        (no NULL detection, the address shapes above);
+      * `specializeConditional_sound`: on `condInFrag` (a flag/temporary, the six integer comparisons of two different
+        leaves (register or constant, either order, ≤ 8 bytes), `BoolNegate`s of these; register values that are absolute
+        values or pure pointers; no comparison of two pointers into the same unique object) a represented state in which
+        the condition has the truth value of the branch is represented by the specialised state, which exists.
  Reused, not redone: soundness of the interval bound refinements (`C04.Bounds`:
  `addSignedGreaterEqualBound_sound`, `addSignedLessEqualBound_sound`), on which (ii) rests; the
  interval transfer functions (`C02.binOp_sound`, …) and `Bitvector::bin_op` (`C01.binOp_eq_ref`), on which
  (iv) rests; merges are the subject of C03.
-NOT proved: that the transfers of the real pointer inference (~5000 lines: abstract objects and memory,
-conditional specialisation of expressions, calls, id renaming, widening) satisfy the hypotheses of (i) —
-only the register part of `Def::Assign` does, by (iv). The rest is VALIDATED: the real analysis runs on
+NOT proved: that ALL transfers of the real pointer inference (~5000 lines: non-stack memory objects, merge-writes
+through pointers with several targets, conditions outside `condInFrag`, calls, id renaming, widening, the state merge)
+satisfy the hypotheses of (i) — `Def::Assign`, and `Def::Store`/`Def::Load`/conditional edges on the fragments of (v) do. The rest is VALIDATED: the real analysis runs on
 generated programs and the Lean reference interpreter checks `StateMem` at every reached block start and
 block end (see Driver). (iv) is tied to the real code by two correspondence streams (real
 `DataDomain::bin_op/un_op/cast/subpiece` and real `State::eval` vs the model, structurally).
@@ -48,6 +64,8 @@ import CweModel.C04.Bounds
 import CweModel.Base.Fix
 import CweModel.C13.DataProps
 import CweModel.C13.EvalProps
+import CweModel.C13.StackProps
+import CweModel.C13.CondProps
 
 namespace CweModel.C13
 open CweModel CweModel.IR CweModel.Itv
